@@ -52,7 +52,7 @@ def field(u, src, F, info):
         t = re.sub(r'pub\((super|crate)\)', 'pub', t)
         t = re.sub(r'struct (Fr|Fq)\((F.Repr)\)', r'struct \1(pub \2)', t)
         u.add(t)
-    for c in ('MODULUS', 'INV', 'R2'):
+    for c in ('MODULUS', 'INV', 'R2', 'R'):
         u.add(re.sub(r'^(pub\s+)?const', 'pub const', u.real_const(mod, c)))
     limbs = [f"r.0[{i}]" for i in range(n)]
     u.add(f"""pub open spec fn QM() -> int {{ {hx(q)} }}
@@ -73,8 +73,24 @@ impl {R} {{
     #[verifier::external_body]
     pub fn lt(&self, other: &{R}) -> (ret: bool) ensures ret == (lv(*self) < lv(*other)) {{ unimplemented!() }}
     #[verifier::external_body]
+    pub fn gt(&self, other: &{R}) -> (ret: bool) ensures ret == (lv(*self) > lv(*other)) {{ unimplemented!() }}
+    #[verifier::external_body]
+    pub fn eq(&self, other: &{R}) -> (ret: bool) ensures ret == (lv(*self) == lv(*other)) {{ unimplemented!() }}
+    #[verifier::external_body]
+    pub fn cmp(&self, other: &{R}) -> (ret: core::cmp::Ordering) ensures ret == (if lv(*self) < lv(*other) {{ core::cmp::Ordering::Less }} else if lv(*self) == lv(*other) {{ core::cmp::Ordering::Equal }} else {{ core::cmp::Ordering::Greater }}) {{ unimplemented!() }}
+    #[verifier::external_body]
     pub fn sub_noborrow(&mut self, other: &{R}) requires lv(*old(self)) >= lv(*other) ensures lv(*final(self)) == lv(*old(self)) - lv(*other) {{ unimplemented!() }}
+    #[verifier::external_body]
+    pub fn add_nocarry(&mut self, other: &{R}) requires lv(*old(self)) + lv(*other) < WN() ensures lv(*final(self)) == lv(*old(self)) + lv(*other) {{ unimplemented!() }}
+    #[verifier::external_body]
+    pub fn mul2(&mut self) requires 2 * lv(*old(self)) < WN() ensures lv(*final(self)) == 2 * lv(*old(self)) {{ unimplemented!() }}
+    #[verifier::external_body]
+    pub fn is_zero(&self) -> (ret: bool) ensures ret == (lv(*self) == 0) {{ unimplemented!() }}
+    #[verifier::external_body]
+    pub fn from(val: u64) -> (ret: {R}) ensures lv(ret) == val {{ unimplemented!() }}
 }}
+#[verifier::external_body]
+pub fn repr_to_string(r: &{R}) -> (ret: String) {{ unimplemented!() }}
 impl {F} {{""")
     # is_valid / reduce: real bodies (`self.0 < MODULUS` is the derived PartialOrd of the representation: written as the contracted lt)
     u.add(u.real_fn(mod, f'impl {F}', 'is_valid', "    ensures ret == (lv(self.0) < QM())", ret='ret', vis='pub',
@@ -93,8 +109,62 @@ impl {F} {{""")
                     "    requires lv(old(self).0) < QM()\n"
                     "    ensures lv(final(self).0) < QM(), (lv(final(self).0) * WN()) % QM() == (lv(old(self).0) * lv(old(self).0)) % QM(), mv(*final(self)) == (mv(*old(self)) * mv(*old(self))) % QM()",
                     vis='pub', body_edit=lambda b: square_edit(u, b, n)))
+    FH = f're:impl\\s+::ff::Field\\s+for\\s+{F}\\b'
+    PH = f're:impl\\s+::ff::PrimeField\\s+for\\s+{F}\\b'
+    pre2 = "proof { lemma_consts(); }"
+    u.add(u.real_fn(mod, FH, 'zero', "    ensures lv(ret.0) < QM(), mv(ret) == 0", ret='ret', vis='pub',
+                    body_edit=lambda b: b.replace('{', '{ ' + pre2, 1), tail="proof { assert(0 * RINV() == 0); lemma_small_mod(0, QM() as nat); }"))
+    u.add(u.real_fn(mod, FH, 'one', "    ensures lv(ret.0) < QM(), mv(ret) == 1", ret='ret', vis='pub',
+                    tail="proof { assert(lv(R) < QM() && (lv(R) * RINV()) % QM() == 1) by(compute); }"))
+    u.add(u.real_fn(mod, FH, 'is_zero', "    requires lv(self.0) < QM()\n    ensures ret == (mv(*self) == 0)", ret='ret', vis='pub',
+                    body_edit=lambda b: b.replace('{', '{ proof { lemma_consts(); lemma_mv_zero(lv(self.0), QM(), WN(), RINV()); }', 1)))
+    u.add(u.real_fn(mod, FH, 'add_assign', "    requires lv(old(self).0) < QM(), lv(other.0) < QM()\n    ensures lv(final(self).0) < QM(), mv(*final(self)) == (mv(*old(self)) + mv(*other)) % QM()", vis='pub',
+                    body_edit=lambda b: b.replace('{', '{ ' + pre2 + ' let ghost a_in = *self;', 1),
+                    tail="proof { lemma_mv_lin(lv(self.0), lv(a_in.0), lv(other.0), 1, QM(), RINV()); }"))
+    u.add(u.real_fn(mod, FH, 'double', "    requires lv(old(self).0) < QM()\n    ensures lv(final(self).0) < QM(), mv(*final(self)) == (mv(*old(self)) + mv(*old(self))) % QM()", vis='pub',
+                    body_edit=lambda b: b.replace('{', '{ ' + pre2 + ' let ghost a_in = *self;', 1),
+                    tail="proof { lemma_mv_lin(lv(self.0), lv(a_in.0), lv(a_in.0), 1, QM(), RINV()); }"))
+    u.add(u.real_fn(mod, FH, 'sub_assign', "    requires lv(old(self).0) < QM(), lv(other.0) < QM()\n    ensures lv(final(self).0) < QM(), mv(*final(self)) == (mv(*old(self)) - mv(*other)) % QM()", vis='pub',
+                    body_edit=lambda b: gt_rule(u, b).replace('{', '{ ' + pre2 + ' let ghost a_in = *self;', 1),
+                    tail="proof { let s = lv(self.0); let la = lv(a_in.0); let lb = lv(other.0); if lb > la { lemma_mod_sub_multiples_vanish(la + QM() - lb, QM()); } lemma_mv_lin(s, la, lb, -1, QM(), RINV()); }"))
+    u.add(u.real_fn(mod, FH, 'negate', "    requires lv(old(self).0) < QM()\n    ensures lv(final(self).0) < QM(), mv(*final(self)) == (0 - mv(*old(self))) % QM()", vis='pub',
+                    body_edit=lambda b: b.replace('{', '{ ' + pre2 + ' let ghost a_in = *self; proof { lemma_mv_zero(lv(self.0), QM(), WN(), RINV()); }', 1),
+                    tail="proof { let s = lv(self.0); let la = lv(a_in.0); if la != 0 { lemma_mod_sub_multiples_vanish(QM() - la, QM()); } lemma_mv_lin(s, 0, la, -1, QM(), RINV()); assert(0 * RINV() == 0); lemma_small_mod(0, QM() as nat); }"))
+    u.add(u.real_fn(mod, PH, 'into_repr', "    requires lv(self.0) < QM()\n    ensures lv(ret) == mv(*self), lv(ret) < QM()", ret='ret', vis='pub',
+                    body_edit=lambda b: b.replace('{', '{ ' + pre2, 1).replace('r.0\n', 'proof { lemma_into_repr(lv(r.0), lv(self.0), QM(), WN(), RINV()); } r.0\n', 1)))
+    u.add(u.real_fn(mod, PH, 'from_repr', "    ensures (lv(r) < QM()) == ret.is_ok(), ret.is_ok() ==> mv(ret.unwrap()) == lv(r) && lv(ret.unwrap().0) < QM()", ret='ret', vis='pub',
+                    body_edit=lambda b: fmt_rule(u, b).replace('{', '{ ' + pre2 + ' let ghost r_in = r;', 1)
+                    .replace('Ok(r)', 'proof { lemma_from_repr(lv(r.0), lv(r_in), lv(R2), QM(), WN(), RINV()); } Ok(r)', 1)))
+    u.add(u.real_fn(mod, f're:impl\\s+::std::cmp::PartialEq\\s+for\\s+{F}\\b', 'eq', "    requires lv(self.0) < QM(), lv(other.0) < QM()\n    ensures ret == (mv(*self) == mv(*other))", ret='ret', vis='pub',
+                    body_edit=lambda b: eq_rule(u, b).replace('{', '{ proof { lemma_consts(); if mv(*self) == mv(*other) { lemma_mv_inj(lv(self.0), lv(other.0), QM(), WN(), RINV()); } }', 1)))
+    u.add(u.real_fn(mod, f're:impl\\s+Ord\\s+for\\s+{F}\\b', 'cmp', "    requires lv(self.0) < QM(), lv(other.0) < QM()\n"
+                    "    ensures ret == (if mv(*self) < mv(*other) { core::cmp::Ordering::Less } else if mv(*self) == mv(*other) { core::cmp::Ordering::Equal } else { core::cmp::Ordering::Greater })",
+                    ret='ret', vis='pub', sig_edit=lambda sg: sg.replace('::std::cmp::Ordering', 'core::cmp::Ordering')))
     u.add("}")
     u.add("}")
+
+
+def gt_rule(u, b):
+    if 'other.0 > self.0' not in b:
+        raise AnchorLost('sub_assign: comparison not found')
+    u.rewrites['R16'] = u.rewrites.get('R16', 0) + 1
+    return b.replace('other.0 > self.0', 'other.0.gt(&self.0)')
+
+
+def eq_rule(u, b):
+    if 'self.0 == other.0' not in b:
+        raise AnchorLost('eq: comparison not found')
+    u.rewrites['R16'] = u.rewrites.get('R16', 0) + 1
+    return b.replace('self.0 == other.0', 'self.0.eq(&other.0)')
+
+
+def fmt_rule(u, b):
+    """R18: the error message `format!("{}", r.0)` (alloc::fmt machinery) is produced by an uninterpreted stub; only the text of the message is lost"""
+    m = re.search(r'::alloc::__export::must_use\(\{\s*::alloc::fmt::format\(format_args!\("\{0\}", r\.0\)\)\s*\}\)', b)
+    if not m:
+        raise AnchorLost('from_repr: error message expression not found')
+    u.rewrites['R18'] = u.rewrites.get('R18', 0) + 1
+    return b[:m.start()] + 'repr_to_string(&r.0)' + b[m.end():]
 
 
 def square_edit(u, b, n):
